@@ -15,7 +15,7 @@ from . import common as C
 from . import runtime as R
 
 DRIVER = "acq_runtime"
-COSIM_CLASSES = ("single", "two", "mon", "latemon", "holdmon", "abort", "abortmon", "stofault", "camfault", "slowmon", "restart", "remap")
+COSIM_CLASSES = ("single", "two", "mon", "latemon", "holdmon", "abort", "abortmon", "stofault", "camfault", "slowmon", "restart", "remap", "avg1", "camempty")
 
 
 def sig_of(msg):
@@ -81,6 +81,16 @@ def gen(rng, cls):
         streams[0]["n"] = 1000
         window = ["start", "sleep %d" % rng.randrange(1, 15), "map 0", "sleep %d" % rng.randrange(0, 15), "abort", "unmap 0 all",
                   "reconfigure %d" % n, "start", "map 0", "unmap 0 all", "monwait 0", "stop"]
+    elif cls == "avg1":
+        # frame_average_count = 1 (or an explicit 0) is "no averaging": the source must feed the sink directly, exactly as M1 says
+        streams[0]["avg"] = rng.choice([1, 1, 0])
+        mon = rng.choice([[], ["map 0", "unmap 0 all", "monwait 0"], ["sleep 5", "map 0", "unmap 0 1", "monwait 0"]])
+        # (a client that has begun to monitor keeps consuming in a later acquisition too: see the known finding C07/stalled-monitor)
+        window = ["start"] + mon + ["stop"] + rng.choice([[], ["start"] + (["monwait 0"] if mon else []) + ["stop"]])
+    elif cls == "camempty":
+        # the camera hands out an empty frame every k-th call: the source aborts that write and carries on
+        faults = ["camempty %d" % rng.choice([2, 3])]
+        window = ["start", "stop"] + rng.choice([[], ["start", "stop"]])
     elif cls == "remap":
         # C02 at pipeline level: the client holds a region while the source laps the ring, and (a usage error) asks for a second
         # map without unmapping: the call is refused and must leave the held region alone
@@ -144,11 +154,39 @@ def gen_prog(rng, cls):
         prog = ["cfg 0 cam=0 sto=2 w=%d h=%d type=%d n=%d avg=%d" % (w, h, t, rng.choice([2, 4, 5, 9]), k0),
                 "cfg 1 cam=1 sto=3 w=%d h=%d type=%d n=%d avg=%d" % (w1, h1, t1, rng.choice([2, 4, 6, 7]), k1), "configure", "start"] + \
                rng.choice([[], ["map 1", "unmap 1 all", "monwait 1"], ["map 0", "unmap 0 all", "monwait 0"]]) + ["stop"]
+    elif cls == "twofail":
+        # two streams; the start of the second one fails (its storage refuses to start, or its camera does) while the first one is
+        # already running — free-running, waiting for a software trigger, or asleep on a small ring; acquire_start has to wind the first
+        # one down and a later start has to give two complete acquisitions
+        w1, h1, t1 = rng.choice([1, 4]), rng.choice([2, 3]), rng.choice([0, 1])
+        ring = max(ring, R.frame_bytes(w1, h1, R.BPP[t1]) * 2 + 16)
+        trig = rng.random() < .4
+        n0, n1 = rng.choice([3, 5, 1000]), rng.choice([2, 4, 6])
+        c0 = "cfg 0 cam=0 sto=2 w=%d h=%d type=%d n=%d" % (w, h, t, n0)
+        c1 = "cfg 1 cam=1 sto=3 w=%d h=%d type=%d n=%d" % (w1, h1, t1, n1)
+        faults = [rng.choice(["stostartfail 3 1", "stostartfail 3 1", "camstartfail 1 1"])]
+        prog = [c0 + (" trig=1" if trig else ""), c1, "configure", "start", "state",
+                "cfg 0 cam=0 sto=2 w=%d h=%d type=%d n=%d" % (w, h, t, rng.choice([2, 5])), c1, "configure", "start", "stop"] + \
+               rng.choice([[], ["start", "stop"]])
+    elif cls == "stopawait":
+        # a storage that answers AwaitingConfiguration to stop(): the next start without a configure must be refused by the HAL
+        faults = ["stostopawait 2"]
+        prog = [cfg0, "configure", "start", "stop", "start"] + rng.choice([["stop"], ["abort"], []]) + [cfg0, "configure", "start", "stop"]
+    elif cls == "avgfault":
+        # averaging on and the storage fails: the filter's flush must end although its output is refused
+        k = rng.choice([2, 3]); fb32 = R.frame_bytes(w, h, 4)
+        ring = rng.choice([max(fb, fb32) * 2 + 16, max(fb, fb32) * 4])
+        faults = ["sto 2 %d%s" % (rng.randrange(0, 3), rng.choice(["", " p"]))]
+        prog = ["cfg 0 cam=0 sto=2 w=%d h=%d type=%d n=%d avg=%d" % (w, h, t, rng.choice([6, 12, 1000]), k), "configure", "start",
+                rng.choice(["stop", "abort", "sleep 30"]), "stop", cfg0, "configure", "start", "stop"]
+    elif cls == "trigfault":
+        # software-triggered camera and a failing storage: the sink dies while the source waits for the next trigger; abort has to
+        # fire the trigger to get the source out
+        faults = ["sto 2 %d%s" % (rng.randrange(0, 3), rng.choice(["", " p"]))]
+        prog = [cfg0.replace(" n=", " trig=1 n=").replace("n=%d" % n, "n=1000"), "configure", "start"] + ["trigger 0", "sleep 2"] * rng.randrange(1, 6) + \
+               ["sleep %d" % rng.randrange(0, 10), "abort", cfg0, "configure", "start", "stop"]   # (stop would wait for triggers nobody fires)
     elif cls == "delay":
         prog = [cfg0 + " delay=%d" % rng.choice([1, 3]), "configure", "start", "stop"]
-    elif cls == "camempty":
-        faults = ["camempty %d" % rng.choice([2, 3])]
-        prog = [cfg0, "configure", "start", "stop"]
     elif cls == "switchfail":
         # C08: a re-configuration switches stream 0 to another camera / storage whose open fails (busy, unplugged), then the client carries on
         which = rng.choice(["cam", "sto"])
